@@ -5979,6 +5979,10 @@ func (t *Terminal) Loop() error {
 				}
 				if valid {
 					command, tempFiles := t.replacePlaceholder(a.a, false, string(t.input), list)
+					if newCommand != nil {
+						// Superseded by this one in the same chain of actions
+						removeFiles(newCommand.tempFiles)
+					}
 					newCommand = &commandSpec{command, tempFiles}
 					reloadSync = a.t == actReloadSync
 					t.reading = true
